@@ -122,6 +122,21 @@ def evaluate(case):
     _, vc = Pre_Proc.rebin(x, np.full_like(y, case["c"]), xmin, xdiv, xmax)
     if exceeds(np.abs(np.asarray(vc) - case["c"]).max(), 1e-12 * max(1.0, abs(case["c"]))):
         fails.append("a constant is not preserved")
+    # whole-number ordinates (counts, a 0/1 mask) handed over in an integer or boolean array are averaged like the same numbers as floats:
+    # the local average of whole numbers is in general not a whole number
+    yw = np.rint(y * 3)
+    try:
+        _, vwf = Pre_Proc.rebin(x, yw, xmin, xdiv, xmax)
+        _, vwi = Pre_Proc.rebin(x, yw.astype(np.int64), xmin, xdiv, xmax)
+        _, vwb = Pre_Proc.rebin(x, yw > 0, xmin, xdiv, xmax)
+        _, vwbf = Pre_Proc.rebin(x, (yw > 0).astype(float), xmin, xdiv, xmax)
+        if np.asarray(vwi).shape != np.asarray(vwf).shape or not np.allclose(np.asarray(vwi, dtype=float), np.asarray(vwf, dtype=float), rtol=1e-12, atol=1e-12, equal_nan=True):
+            fails.append(f"rebin: integer-typed ordinates give {np.asarray(vwi).tolist()[:3]} (dtype {np.asarray(vwi).dtype}), the same numbers as floats give "
+                         f"{np.asarray(vwf, dtype=float).tolist()[:3]}: the averages were truncated")
+        elif not np.allclose(np.asarray(vwb, dtype=float), np.asarray(vwbf, dtype=float), rtol=1e-12, atol=1e-12, equal_nan=True):
+            fails.append("rebin: a boolean mask as ordinates is not averaged like the same 0/1 values as floats")
+    except ZeroDivisionError:
+        pass
     _, vz = Pre_Proc.rebin(x, z, xmin, xdiv, xmax)
     _, vl = Pre_Proc.rebin(x, case["a"] * y + case["b"] * z, xmin, xdiv, xmax)
     if exceeds(np.abs(np.asarray(vl) - (case["a"] * v + case["b"] * np.asarray(vz))).max(), 1e-10 * max(1.0, float(np.abs(y).max()) * 3)):
